@@ -344,7 +344,7 @@ theorem exDoc_accepted (env : Env) (fuel : Nat) : ∃ es, elabES env fuel exDoc 
   rw [visitChildren_elem]
   unfold visitElem
   have h3 : nestingCheck "schema".toList "abstracttype".toList = .ok () :=
-    (nestingCheck_ok_iff _ _).2 ⟨["schema".toList, "component".toList], by decide +kernel, by decide +kernel⟩
+    (nestingCheck_ok_iff _ _).2 ⟨["component".toList, "schema".toList], by decide +kernel, by decide +kernel⟩
   have h4 : ("abstracttype".toList == (DocKind.schema none).topLevel) = false := by decide +kernel
   have h5 : (DocKind.schema none).handled.contains "abstracttype".toList = true := by decide +kernel
   simp only [h3, h4, h5, Bool.false_eq_true, ↓reduceIte, startHandled_abstracttype]
